@@ -285,7 +285,7 @@ variable (valid : String → Bool)
 theorem unknown_kid_never_signs (s : Store) (kid : String) (h : s.ref kid = none) :
     signKey valid s kid = .error .privateKeyNotFound ∧
     resolve valid s kid = .error .privateKeyNotFound ∧
-    (∀ c, decrypt valid s kid c = .error .privateKeyNotFound) ∧
+    (∀ c isEC, decrypt valid s kid c isEC = .error .privateKeyNotFound) ∧
     (∀ c, kid ≠ "" → decryptJWE valid s kid c = .error .privateKeyNotFound) ∧
     keyExists s kid = false ∧
     delete valid s kid = (s, .error .privateKeyNotFound) := by
@@ -297,7 +297,8 @@ theorem unknown_kid_never_signs (s : Store) (kid : String) (h : s.ref kid = none
 theorem sign_only_by_reference (s : Store) (kid : String) (k : Nat) (h : signKey valid s kid = .ok k) :
     ∃ r, s.ref kid = some r ∧ valid r.keyName = true ∧ s.key r.keyName = some k ∧
       resolve valid s kid = .ok k ∧
-      (∀ c, decrypt valid s kid c = if k = c then .ok k else .error .wrongKey) ∧
+      (∀ c isEC, decrypt valid s kid c isEC =
+        if isEC k then (if k = c then .ok k else .error .wrongKey) else .error .unsupportedKey) ∧
       (∀ c, kid ≠ "" → decryptJWE valid s kid c = if k = c then .ok k else .error .wrongKey) := by
   unfold signKey getPrivateKey findRef at h
   cases hr : s.ref kid with
@@ -313,7 +314,7 @@ theorem sign_only_by_reference (s : Store) (kid : String) (k : Nat) (h : signKey
         subst h
         refine ⟨r, rfl, hv, hk, ?_, ?_, ?_⟩
         · simp [resolve, findRef, hr, wGet, hv, hk]
-        · intro c; simp [decrypt, findRef, hr, wGet, hv, hk]
+        · intro c isEC; simp [decrypt, findRef, hr, wGet, hv, hk]
         · intro c hne; simp [decryptJWE, hne, getPrivateKey, findRef, hr, wGet, hv, hk]
     · simp [hv] at h
 
@@ -427,6 +428,23 @@ theorem key_material_does_not_flow (valid : String → Bool) (s t : Store) (h : 
   refine ⟨hR.1, hR.2, by simp [list, hR.1], fun kid => by simp [keyExists, same_ref hR kid],
     fun r => same_audit valid hR r, fun kid => same_getPrivateKey valid hR kid, fun kid => same_resolve valid hR kid⟩
 
+/-- **error values are an output channel too.** The text of every error the engine words itself (`errText`) is computed
+    from the request, the reference rows and the error class — no key pair is in scope of that function — and for two
+    stores that differ only in key material it is the same text after any history. (The real texts are compared with
+    `errText` character by character in the correspondence, for ECDSA, RSA and Ed25519 keys.) -/
+theorem error_text_independent_of_key_material (valid : String → Bool) (keyDir : String) (s t : Store)
+    (h : SameButKeys s t) (ops : List Op) (r : Req) (e : KErr) :
+    errText keyDir (run valid s ops) r e = errText keyDir (run valid t ops) r e := by
+  have hR := same_run valid h ops
+  have href : ∀ kid, (run valid s ops).ref kid = (run valid t ops).ref kid := fun kid => same_ref hR kid
+  cases e <;> cases r <;> simp only [errText, href] <;> (try rfl)
+
+example : errText "/d" (run exValid {} exOps) (.decrypt "evil" 0) .invalidKid = some "invalid key ID: ../x" ∧
+    errText "/d" (run exValid {} exOps) (.decrypt "alias" 0) .spiNotFound
+      = some "could not open entry u1 with filename /d/u1_private.pem: entry not found" ∧
+    errText "/d" (run exValid {} exOps) (.decrypt "alias" 0) .unsupportedKey = some "unsupported decryption key" := by
+  decide +kernel
+
 /-- non-vacuity: the same history on an engine whose key generator hands out other keys — the signing key differs,
     the rows / names / audit records do not -/
 example :
@@ -437,6 +455,12 @@ example :
     auditOf exValid (run exValid {} exOps) (.sign "dpop" "did:a#1" "" "") = [] := by
   refine ⟨⟨rfl, rfl⟩, ?_⟩
   decide +kernel
+
+/-- no error / log / string-building call under `crypto/` renders a variable that holds a private key with a verb other
+    than `%T` (type name only). Name-and-dataflow based go/ast inventory (parameters and declarations of private-key
+    types, results of the key-producing calls, their type-switch / assertion bindings); the extractor is trusted. -/
+theorem fact_no_key_variable_formatted :
+    (∀ site ∈ C03.keyFormatSites, site.2.2.2.1 = "%T") ∧ 10 ≤ C03.keyFormatCallsInspected := by decide
 
 /-- the lookups are by (kid → reference → backend) in every entry point that needs the private key, and nowhere else -/
 theorem fact_key_lookups :
